@@ -4,7 +4,9 @@
 //! behind, tangent band, clip edges, clipped shapes), `C13quadric` (hit data: pairs of rays reaching the
 //! same surface point from both sides, poles).  One case = one call of the crate:
 //!   op 0 constructor, 1 local basic intersection (point + phi), 2 intersect_local_ray (hit data),
-//!   3 intersect (world), 4 simple_intersect (world), 5 bounds() and area() (model correspondence only).
+//!   3 intersect (world), 4 simple_intersect (world), 5 bounds() and area() (model correspondence only),
+//!   6 simple_intersect_local_ray (local ray + error boxes), 7 intersection_info(ray, phit, phi) called directly (phit travels in
+//!   the `oe` slot, phi in `de.x`), 8 world_bounds() and, for spheres, centre() (model correspondence only).
 //! The Coq side receives the *fields of the constructed object* (read through the `verif_fields` hooks and
 //! `Transform::verif_elements`) so that everything after construction is compared bit for bit; the JSON side
 //! receives the constructor arguments as well, for the exact oracles.
@@ -99,6 +101,14 @@ pub fn run_op(obj: &Obj, op: usize, ray: &Ray3D, oe: Point3D, de: Point3D) -> Re
         // op 5: local bounds and area (no ray involved)
         (Obj::S(s), 5) => { let b = s.bounds(); let mut o = pv(b.min); o.extend(pv(b.max)); o.push(s.area()); Some(o) }
         (Obj::C(c), 5) => { let b = c.bounds(); let mut o = pv(b.min); o.extend(pv(b.max)); o.push(c.area()); Some(o) }
+        (Obj::S(s), 6) => s.simple_intersect_local_ray(ray, oe, de).map(pv),
+        (Obj::C(c), 6) => c.simple_intersect_local_ray(ray, oe, de).map(pv),
+        // op 7: intersection_info on its own: phit = oe, phi = de.x
+        (Obj::S(s), 7) => s.intersection_info(ray, oe, de.x).map(|i| info_list(&i)),
+        (Obj::C(c), 7) => c.intersection_info(ray, oe, de.x).map(|i| info_list(&i)),
+        // op 8: world bounds (and the centre of a sphere)
+        (Obj::S(s), 8) => { let b = s.world_bounds(); let mut o = pv(b.min); o.extend(pv(b.max)); o.extend(pv(s.centre())); Some(o) }
+        (Obj::C(c), 8) => { let b = c.world_bounds(); let mut o = pv(b.min); o.extend(pv(b.max)); Some(o) }
         (Obj::S(s), _) => s.simple_intersect(ray).map(pv),
         (Obj::C(c), _) => c.simple_intersect(ray).map(pv),
     }))
@@ -473,7 +483,7 @@ fn emit_hit(sink: &mut Sink, s: &Spec, obj: &Obj, op: usize, rk: u64, ray: &Ray3
     let o = outcome(run_op(obj, op, ray, oe, de));
     let code = 100 * s.shape + 10 * s.variant + op;
     let mut inp = rayv(ray);
-    if op <= 2 { inp.extend(pv(oe)); inp.extend(pv(de)); }
+    if op <= 2 || op == 6 || op == 7 { inp.extend(pv(oe)); inp.extend(pv(de)); }
     let params = obj.params();
     let tr = match obj.transform() { Some(t) => jfs(&mats(&t)), None => "null".to_string() };
     let mate_s = match mate {
@@ -513,6 +523,7 @@ pub fn run(stream: &str, seed: u64, n: usize, out: &str) {
     // give unrelated streams (still a pure function of the one VERIF_SEED)
     let mut r0 = Rng::new(seed ^ (salt << 8) ^ 0x51);
     let mut r = Rng(r0.next() ^ r0.next().rotate_left(17));
+    let mut x = Rng::new(seed ^ (salt << 12) ^ 0x7A11);
     let mut sink = Sink::new(out, "Quadric", 200);
     let zero = Point3D::new(0.0, 0.0, 0.0);
     for (s, rays) in corpus() {
@@ -534,9 +545,31 @@ pub fn run(stream: &str, seed: u64, n: usize, out: &str) {
             let dummy = Ray3D { origin: zero, direction: Vector3D::new(0.0, 0.0, 1.0) };
             emit_hit(&mut sink, &s, &obj, 5, 98, &dummy, zero, zero, None);
         }
+        // the operations added later draw from a second generator state (`x`), so that the other cases do not depend on them
+        if x.chance(0.3) {
+            let dummy = Ray3D { origin: zero, direction: Vector3D::new(0.0, 0.0, 1.0) };
+            emit_hit(&mut sink, &s, &obj, 8, 98, &dummy, zero, zero, None);
+        }
         let g = geom(&obj);
         if !(g.0 > 0.0) || !(g.0.is_finite() && g.1.is_finite() && g.2.is_finite() && g.3.is_finite()) { continue; }
         let t = obj.transform();
+        {
+            // op 6: simple_intersect_local_ray on a local ray with error boxes; op 7: intersection_info called directly at the point the
+            // crate itself reports for that ray (or, when it reports none, at a point of the unclipped surface), with the ray of the call
+            let rk = match stream { "C03quadric" => *x.pick(&[0, 1, 2, 3, 5, 5, 8]), "C13quadric" => *x.pick(&[0, 1, 4, 4, 7]), _ => x.below(N_RK) };
+            let (o, d) = rand_local_ray(&mut x, s.shape, g, rk);
+            let ray = to_world(&None, &o, &d);
+            let (oe, de) = if x.chance(0.5) { (rand_err(&mut x, g.0), rand_err(&mut x, g.0)) } else { (zero, zero) };
+            if x.chance(0.6) { emit_hit(&mut sink, &s, &obj, 6, rk, &ray, oe, de, None); }
+            if x.chance(0.6) {
+                let hit = run_op(&obj, 1, &ray, zero, zero).ok().flatten();
+                let (phit, phi) = match hit {
+                    Some(v) if x.chance(0.85) => (Point3D::new(v[0], v[1], v[2]), v[3]),
+                    _ => { let q = rand_target(&mut x, s.shape, g, false); (Point3D::new(q[0] as Float, q[1] as Float, q[2] as Float), x.range(0.0, 6.28) as Float) }
+                };
+                emit_hit(&mut sink, &s, &obj, 7, rk, &ray, phit, Point3D::new(phi, 0.0, 0.0), None);
+            }
+        }
         let nrays = 6;
         for _ in 0..nrays {
             if stream == "C13quadric" && r.chance(0.7) {
